@@ -86,8 +86,10 @@ class W7(gen.World):
             cfg = b"{}"
             self.ensure_blob(repo, cfg)
             cmt = rng.choice([MT_EMPTY, MT_CFG, "application/vnd.example.config"])
+            # (the body's own mediaType field may be absent, or name the docker type while the push says OCI: the listing
+            #  carries the media type the manifest was pushed with)
             body = image_manifest(desc(cmt, cfg), [], subject=subject, artifact_type=at or None, annotations=ann,
-                                  extra={"n": len(self.steps)} if False else None)
+                                  media_type=rng.choice([MT_OCI_M, MT_OCI_M, MT_OCI_M, None, MT_DOCK_M]))
             body = body[:-1] + b',"x-n":%d}' % len(self.steps)      # make every artifact distinct
             mt = MT_OCI_M
         else:
